@@ -29,7 +29,7 @@ theorem vector_table_documented (op : String) (hop : op ∈ Gen.binOps) (x : Str
 
 theorem loopfree_analysis_is_calculus (node : Node) (cmd : Cmd) (hd : desugar node = some cmd)
     (hlf : cmd.loopFree = true) (q : Bool) (idx : Nat) (dg : DG.Graph)
-    (hnames : namesOk node = true) (hcast : castOk node = true) :
+    (hnames : namesOk node = true) :
     ∃ out, Analysis.compute q idx dg node = .ok out ∧ out.exit = false ∧ out.dg = dg ∧
       (∀ s ∈ out.skipped, s ∈ bareClasses) ∧ (noBare node = true → out.skipped = []) ∧
       out.index = idx + cmd.arity ∧
@@ -39,6 +39,6 @@ theorem loopfree_analysis_is_calculus (node : Node) (cmd : Cmd) (hd : desugar no
           (∀ a b, r.den c a b ≠ .i) ∧
           ∃ M, sem U cmd idx (relabelAt idx cmd c) = some (idx + cmd.arity, M) ∧
             ∀ x y, x ∈ U → y ∈ U → r.den c x y = SMat.den U M x y :=
-  Mwp.compute_refines_loopfree_partial node cmd hd hlf q idx dg hnames hcast
+  Mwp.compute_refines_loopfree node cmd hd hlf q idx dg hnames
 
 end Mwp.Props.C01
